@@ -145,6 +145,11 @@ def run_norm(case):
     evals += e
     nontriv |= nt
     skipped += sk
+    var_of = gram.shared_vars(rules)
+    if var_of is not None:
+        # duplicate rules with EQUAL weights (rule objects equal by value)
+        e, nt, sk = _check_norm(rules, V, [FLOATW[v % 6] for v in var_of], False, {"rules": case["rules"], "weights": "float, duplicates share their weight"}, maxlen, fails)
+        evals += e
     if finite_derivations(rules, V, everywhere=True) is not None:
         for wn, WW in (("frac", FRACW), ("frac2", FRACW2)):
             e, nt, sk = _check_norm(rules, V, [WW[i % 6] for i in range(n)], True, {"rules": case["rules"], "weights": wn}, maxlen, fails)
